@@ -37,7 +37,7 @@ def gen_antenna(rng, families=None, max_pulses=25, ground=None, len_jitter=(0.7,
     fam = rng.choice(fams)
     if ground is None:
         ground = fam in ('monopole', 'monopole_top', 'gp', 'monopole_taper') or (fam in ('dipole', 'vee', 'array') and rng.random() < 0.25)
-    if fam in ('monopole', 'monopole_top', 'gp', 'monopole_taper'):
+    if fam in ('monopole', 'monopole_top', 'gp', 'monopole_taper', 'stub_top'):
         ground = True if fam != 'gp' else False
     f = 10 ** rng.uniform(0.3, 2.2)           # 2 .. 160 MHz
     lam = C / f
@@ -111,6 +111,25 @@ def gen_antenna(rng, families=None, max_pulses=25, ground=None, len_jitter=(0.7,
         else:
             w.update(p0=[float(v) for v in top], p1=[float(x), float(y), 0.0])
         wires.append(w)
+    elif fam == 'stub_top':
+        # a grounded riser of ONE segment (vertical or sloping) with one or two wires on its top (inverted L, T), the riser
+        # listed first or last, drawn up or down
+        x, y = rng.uniform(-1, 1) * lam, rng.uniform(-1, 1) * lam
+        tilt = rng.choice([0.0, 0.0, rng.uniform(0.1, 0.5)])
+        h = seg * rng.uniform(0.8, 1.2)
+        base, top = np.array([x, y, 0.0]), np.array([x + tilt * h, y, h])
+        stub = dict(nseg=1, p0=[float(v) for v in base], p1=[float(v) for v in top], r=float(rad))
+        if rng.random() < 0.3:
+            stub['p0'], stub['p1'] = stub['p1'], stub['p0']
+        tops = []
+        d = rand_dir(rng); d[2] = abs(d[2]) * 0.3; d = unit(d)
+        for sgn in ([1.0] if rng.random() < 0.6 else [1.0, -1.0]):
+            n2 = nseg()
+            a, b = top, top + np.array([sgn * d[0], sgn * d[1], d[2]]) * seg * n2
+            if rng.random() < 0.4:
+                a, b = b, a
+            tops.append(dict(nseg=n2, p0=[float(v) for v in a], p1=[float(v) for v in b], r=float(rad)))
+        wires.extend([stub] + tops if rng.random() < 0.7 else tops + [stub])
     elif fam == 'taper_vee':
         # two tapered legs (inverted V, bent dipole) each drawn from its tip to the common apex — or from the apex, or one each
         # way: wire ends of either number meet at the junction of two objects whose first and last segments differ
